@@ -8,7 +8,7 @@ Section PIstep.
 Context (cs : amap pconf).
 Lemma PI_procend1 s o th i s0 s' : step_procend s th i s0 true = Some s' -> PI_goal cs s o th (EProcEnd i s0) s'.
 Proof.
-  intros H f f' HR Hf HO HT j x xo x' xo' Hx Hxo [Pa Pc Ps Pd Pl] Hx' Hxo'.
+  intros H f f' HR Hf HO HT j x xo x' xo' Hx Hxo [Pa Pc Pd Pl] Hx' Hxo'.
   pose proof (rc_th _ _ _ HR) as Hrth.
   kind_cases H; pi_leaf j s x.
   exfalso. apply opt_eqb_N_eq in Heqb. rewrite <- Hrth in Heqb. split_andb. subst. exact (HO _ eq_refl Heqb).
@@ -16,7 +16,7 @@ Qed.
 
 Lemma PI_procend2 s o th i s0 s' : step_procend s th i s0 false = Some s' -> PI_goal cs s o th (EProcEnded i s0) s'.
 Proof.
-  intros H f f' HR Hf HO HT j x xo x' xo' Hx Hxo [Pa Pc Ps Pd Pl] Hx' Hxo'.
+  intros H f f' HR Hf HO HT j x xo x' xo' Hx Hxo [Pa Pc Pd Pl] Hx' Hxo'.
   pose proof (rc_th _ _ _ HR) as Hrth.
   kind_cases H; pi_leaf j s x.
 Qed.
